@@ -2,7 +2,7 @@
 Calibration only — NOT part of the verification machinery (see DESIGN.md, header and §4/C01, C07).
 Written while designing, to measure whether the analytically hardest obligations are within reach
 of Lean 4.33 + Mathlib v4.33 in this sandbox.  Check with:   lean SageCalibration.lean
-Expected output: three `#print axioms` lines, each `[propext, Classical.choice, Quot.sound]`.
+Expected output: four `#print axioms` lines, each `[propext, Classical.choice, Quot.sound]`.
 -/
 import Mathlib.Analysis.SpecialFunctions.Log.Basic
 import Mathlib.Analysis.SpecialFunctions.Exp
@@ -280,3 +280,60 @@ theorem map_of_exp_dual (u v w : ℝ) (h : InExpDual u v w) : InExpCone (-w) (Re
 theorem exp_dual_iff (u v w : ℝ) : InExpDual u v w ↔ InExpCone (-w) (Real.exp 1 * v) (-u) :=
   ⟨map_of_exp_dual u v w, exp_dual_of_map u v w⟩
 #print axioms exp_dual_iff
+
+
+-- weak duality at the level of one AGE cone (basis of `primal value ≤ dual value`, C03–C05)
+theorem expcone_y_nonneg (x y z : ℝ) (h : InExpCone x y z) : 0 ≤ y := by
+  rcases h with ⟨hz, h⟩ | ⟨_, _, hy⟩
+  · exact le_trans (mul_nonneg hz.le (Real.exp_pos _).le) h
+  · exact hy
+
+/-- Pairing of one compiled ordinary primal AGE certificate with the compiled dual AGE rows:
+the basis of weak duality `primal value ≤ dual value`. -/
+theorem ord_age_pairing {ι : Type} {n : ℕ} (α : ι → Fin n → ℝ) (i : ι) (S : Finset ι)
+    (c ν epi : ι → ℝ)
+    (hrows : ∀ j ∈ S, InExpCone (-(epi j)) (Real.exp 1 * c j) (ν j))
+    (hlin : 0 ≤ c i - ∑ j ∈ S, epi j)
+    (hbal : ∀ k : Fin n, ∑ j ∈ S, ν j * (α j k - α i k) = 0)
+    (v : ι → ℝ) (μ : Fin n → ℝ) (hvi : 0 ≤ v i)
+    (hdual : ∀ j ∈ S, InExpCone (-(dotp (α i) μ - dotp (α j) μ)) (v j) (v i)) :
+    0 ≤ c i * v i + ∑ j ∈ S, c j * v j := by
+  have hc : ∀ j ∈ S, 0 ≤ c j := by
+    intro j hj
+    have h1 := expcone_y_nonneg _ _ _ (hrows j hj)
+    have he : 0 < Real.exp 1 := Real.exp_pos 1
+    by_contra hneg
+    have : Real.exp 1 * c j < 0 := mul_neg_of_pos_of_neg he (not_le.mp hneg)
+    linarith
+  have hvj : ∀ j ∈ S, 0 ≤ v j := fun j hj => expcone_y_nonneg _ _ _ (hdual j hj)
+  rcases lt_or_eq_of_le hvi with hpos | hzero
+  · -- v i > 0
+    have hj : ∀ j ∈ S, ν j * (dotp (α j) μ - dotp (α i) μ) - v i * epi j ≤ c j * v j := by
+      intro j hjS
+      rcases hdual j hjS with ⟨_, hd⟩ | ⟨hz, _, _⟩
+      · set t := -(dotp (α i) μ - dotp (α j) μ) / v i with ht
+        have h1 := expcone_row (epi j) (c j) (ν j) t (hrows j hjS)
+        have h2 : v i * (ν j * t - epi j) ≤ v i * (c j * Real.exp t) :=
+          mul_le_mul_of_nonneg_left h1 hpos.le
+        have h3 : c j * (v i * Real.exp t) ≤ c j * v j := mul_le_mul_of_nonneg_left hd (hc j hjS)
+        have h4 : v i * (ν j * t) = ν j * (dotp (α j) μ - dotp (α i) μ) := by
+          rw [ht]; field_simp; ring
+        nlinarith [h2, h3, h4]
+      · exact absurd hz (ne_of_gt hpos)
+    have hsum := Finset.sum_le_sum hj
+    have hb : ∑ j ∈ S, ν j * (dotp (α j) μ - dotp (α i) μ) = 0 := by
+      have : ∀ j ∈ S, ν j * (dotp (α j) μ - dotp (α i) μ) = ∑ k, (ν j * (α j k - α i k)) * μ k := by
+        intro j _; unfold dotp; rw [← Finset.sum_sub_distrib, Finset.mul_sum]
+        apply Finset.sum_congr rfl; intro k _; ring
+      rw [Finset.sum_congr rfl this, Finset.sum_comm]
+      apply Finset.sum_eq_zero; intro k _
+      rw [← Finset.sum_mul, hbal k, zero_mul]
+    rw [Finset.sum_sub_distrib, hb, ← Finset.mul_sum] at hsum
+    have : v i * ∑ j ∈ S, epi j ≤ v i * c i := mul_le_mul_of_nonneg_left (by linarith) hpos.le
+    nlinarith [hsum, this]
+  · -- v i = 0
+    rw [← hzero]
+    have : 0 ≤ ∑ j ∈ S, c j * v j := Finset.sum_nonneg fun j hj => mul_nonneg (hc j hj) (hvj j hj)
+    simpa using this
+
+#print axioms ord_age_pairing
